@@ -304,7 +304,24 @@ def _is_lit(ev, text):
 
 # ------------------------------------------------------------------ stream
 
+def _state_enum(ctx, ty):
+    """a crate-local position enum: two variants carrying a part index, two without payload"""
+    a = ctx.facts.adts.get(ty.split("<")[0])
+    if not (a and a.get("local") and a["kind"] == "enum" and len(a["variants"]) == 4):
+        return None
+    pay = [v for v in a["variants"] if len(v["fields"]) == 1 and v["fields"][0]["ty"] == "usize"]
+    unit = [v for v in a["variants"] if not v["fields"]]
+    return a if len(pay) == 2 and len(unit) == 2 else None
+
+
 def find_stream(ctx):
+    if hasattr(ctx, "_mp_stream"):
+        return ctx._mp_stream
+    ctx._mp_stream = _find_stream(ctx)
+    return ctx._mp_stream
+
+
+def _find_stream(ctx):
     from ..check import FailClosed
     cands = []
     for a in ctx.facts.adts.values():
@@ -326,6 +343,9 @@ def find_stream(ctx):
             roles["cur"] = f["name"]
         elif t == "usize":
             roles["state"] = f["name"]
+        elif _state_enum(ctx, t) is not None:
+            roles["state"] = f["name"]
+            roles["state_adt"] = _state_enum(ctx, t)["path"]
         elif "Vec<std::vec::Vec<u8>>" in t:
             roles["part_headers"] = f["name"]
         elif "Vec<std::ops::Range<u64>>" in t:
@@ -336,10 +356,19 @@ def find_stream(ctx):
             roles["entity"] = f["name"]
         elif t == "bool" or _two_unit_variants(ctx, t):
             phase.append(f)
-    if set(roles) != {"cur", "state", "part_headers", "ranges", "remaining", "entity"}:
+    if set(roles) - {"state_adt"} != {"cur", "state", "part_headers", "ranges", "remaining", "entity"}:
         raise FailClosed("multipart stream fields not recognised by type: %r" % roles)
-    # position representation: one packed integer 2h+p, or a part index h plus a two-valued phase field p
-    if len(phase) == 1:
+    # position representation: one packed integer 2h+p, a part index h plus a two-valued phase field p, or an enum
+    # {headers(h), body(h), trailer, end} (the variants' roles are read off what the step does in each of them)
+    if "state_adt" in roles:
+        if phase:
+            raise FailClosed("multipart stream has a position enum and two-valued fields: %r" % [f["name"] for f in phase])
+        roles["rep"] = "enum"
+        pn = impl_fn(ctx, "futures_core::Stream", a["path"], "poll_next")
+        if len(pn) != 1:
+            raise FailClosed("no unique poll_next for %s" % a["path"])
+        roles["variants"] = _classify_variants(ctx, a["path"], roles, pn[0])
+    elif len(phase) == 1:
         roles["part"] = roles["state"]
         roles["phase"] = phase[0]["name"]
         roles["phase_values"] = _phase_values(ctx, a["path"], roles, phase[0]["ty"])
@@ -379,8 +408,65 @@ def _phase_values(ctx, adt, roles, ty):
     raise FailClosed("multipart stream: initial phase value %r not understood" % (v0,))
 
 
+def _classify_variants(ctx, adt, roles, pn):
+    """{role: variant name} for role in hdr / body / trailer / end, decided by what one step does when entered in that variant
+    (no current part): takes a part header out of the list / builds or polls a part stream / emits literal bytes / ends"""
+    from ..check import FailClosed
+    sadt = roles["state_adt"]
+    out = {}
+    for v in ctx.facts.adts[sadt]["variants"]:
+        stv = agg("adt", sadt, v["name"], (("0", H),) if v["fields"] else ())
+        sv = agg("adt", adt, None, (
+            (roles["cur"], NONE), (roles["state"], stv), (roles["part_headers"], PH), (roles["ranges"], RG),
+            (roles["entity"], ("sym", "entity")), (roles["remaining"], REM)))
+        rels = [("Eq", ("len", PH), N), ("Le", N, const(((1 << 63) - 1) // 16))] + ([("Lt", H, N)] if v["fields"] else [("Eq", H, N)])
+        outs = run_case(ctx, adt, dict(roles, rep="enum-classify"), pn, None, False, selfval=sv, rels=rels)
+        kinds = set()
+        for o in outs:
+            if o.kind in ("unreachable", "infeasible", "diverge") or not cons_zone(o).feasible():
+                continue
+            if any(e["k"] == "call" and e["callee"].get("path") == "Entity::get_range" for e in o.events):
+                kinds.add("body")
+                continue
+            if o.kind != "return":
+                continue
+            kind, payload = poll_shape(o.value)
+            if kind == "Ok":
+                kinds.add("hdr" if repr(PH) in repr(payload) else ("trailer" if "'bytes'" in repr(payload)[:400] else "data"))
+            elif kind == "None":
+                kinds.add("end")
+        if len(kinds) != 1 or next(iter(kinds)) not in ("hdr", "body", "trailer", "end") or (next(iter(kinds)) in ("hdr", "body")) != bool(v["fields"]):
+            raise FailClosed("multipart stream: the role of position variant %s is not recognised (%s)" % (v["name"], sorted(kinds)))
+        out[next(iter(kinds))] = v["name"]
+    if set(out) != {"hdr", "body", "trailer", "end"}:
+        raise FailClosed("multipart stream: position variants do not cover headers / body / trailer / end: %r" % out)
+    return out
+
+
+def pre_pos(roles, p):
+    """the position a case is entered with, as pack(h, p)"""
+    if p == "T":
+        return pack(N, const(0))
+    if p == "E":
+        return pack(N, const(1))
+    return pack(H, const(p))
+
+
 def read_pos(ctx, o, roles):
     """the position at the end of path o as pack(h, p) (whatever the representation)"""
+    if roles["rep"] == "enum":
+        v = final_read(ctx, o, SELF, (("f", roles["state"]),))
+        if is_agg(v) and v[2] == roles["state_adt"]:
+            role = {n: r for r, n in roles["variants"].items()}.get(v[3])
+            if role == "hdr":
+                return pack(agg_get(v, "0"), const(0))
+            if role == "body":
+                return pack(agg_get(v, "0"), const(1))
+            if role == "trailer":
+                return pack(N, const(0))
+            if role == "end":
+                return pack(N, const(1))
+        return ("unknown_position", v)
     if roles["rep"] == "packed":
         return final_read(ctx, o, SELF, (("f", roles["state"]),))
     part = final_read(ctx, o, SELF, (("f", roles["part"]),))
@@ -394,6 +480,10 @@ def read_pos(ctx, o, roles):
 
 
 def pos_fields(roles, h, p):
+    if roles["rep"] == "enum":
+        vs = roles["variants"]
+        name = {0: vs["hdr"], 1: vs["body"], "T": vs["trailer"], "E": vs["end"]}[p]
+        return ((roles["state"], agg("adt", roles["state_adt"], name, (("0", h),) if p in (0, 1) else ())),)
     if roles["rep"] == "packed":
         return ((roles["state"], pack(h, const(p))),)
     return ((roles["part"], h), (roles["phase"], roles["phase_values"][p]))
@@ -408,8 +498,13 @@ CURS = ("sym", "cur_stream")
 N = ("len", RG)
 
 
-def stream_cases():
-    return [("p=0,cur=None", 0, False), ("p=1,cur=None", 1, False), ("p=1,cur=Some", 1, True)]
+def stream_cases(roles=None):
+    """(label, phase, current part installed?) - the symbolic part index h ranges over 0..=n in the integer representations
+    (the code itself tests h == n); a position enum has separate variants for h == n, entered as their own cases"""
+    cs = [("p=0,cur=None", 0, False), ("p=1,cur=None", 1, False), ("p=1,cur=Some", 1, True)]
+    if roles is not None and roles.get("rep") == "enum":
+        cs += [("trailer,cur=None", "T", False), ("end,cur=None", "E", False)]
+    return cs
 
 
 def mk_self(adt, roles, h, p, cur_some, rem=REM, ph=PH):
@@ -423,11 +518,15 @@ def mk_self(adt, roles, h, p, cur_some, rem=REM, ph=PH):
     ))
 
 
-def base_rels(cur_some, h=H):
+def base_rels(cur_some, h=H, roles=None, p=None):
     # a Vec<Range<u64>> has 16-byte elements, so its length is at most isize::MAX / 16
     rels = [("Le", h, N), ("Eq", ("len", PH), N), ("Le", N, const(((1 << 63) - 1) // 16))]
     if cur_some:
         rels.append(("Lt", h, N))
+    if roles is not None and roles.get("rep") == "enum":
+        # the enum's object invariant: an index-carrying variant holds an index below n (established by the constructor and
+        # by every transition: inv_holds checks it on the post-states); the payload-free ones stand for h == n
+        rels.append(("Lt", h, N) if p in (0, 1) else ("Eq", h, N))
     return rels
 
 
@@ -436,7 +535,7 @@ def run_case(ctx, adt, roles, pn, p, cur_some, selfval=None, rels=None, cons0=No
     TY.setdefault(REM, (64, False))
     TY.setdefault(N, (64, False))
     sv = selfval if selfval is not None else mk_self(adt, roles, H, p, cur_some)
-    rl = rels if rels is not None else base_rels(cur_some)
+    rl = rels if rels is not None else base_rels(cur_some, roles=roles, p=p)
 
     def setup(st, px):
         st.env[SELF] = sv
@@ -468,6 +567,8 @@ def inv_holds(ctx, o, roles):
     z = cons_zone(o, terms=(h2, N))
     if not z.entails("Le", h2, N):
         return False, "h' = %s <= n not implied" % short(h2, 40), (h2, p2, cv)
+    if roles["rep"] == "enum" and not (h2 == N) and not z.entails("Lt", h2, N):
+        return False, "an index-carrying position variant is stored with h' = %s, which may equal n" % short(h2, 40), (h2, p2, cv)
     if cv == "Some":
         if p2 != 1:
             return False, "a part stream is installed while the position says 'header/trailer next' (p=0)", (h2, p2, cv)
@@ -481,7 +582,7 @@ def stream_invariant(ctx, rule):
     adt, roles, pn = find_stream(ctx)
     nrows = 0
     terminal = []
-    for label, p, cs in stream_cases():
+    for label, p, cs in stream_cases(roles):
         outs = run_case(ctx, adt, roles, pn, p, cs)
         # census under Inv
         sites = CEN.census(ctx, outs)
@@ -563,7 +664,7 @@ def stream_accounting(ctx, rule):
     """C01.R5: every emitted piece is subtracted from the owed-bytes field exactly once"""
     adt, roles, pn = find_stream(ctx)
     nok = 0
-    for label, p, cs in stream_cases():
+    for label, p, cs in stream_cases(roles):
         outs = run_case(ctx, adt, roles, pn, p, cs)
         for o in outs:
             if o.kind != "return" or not cons_zone(o).feasible():
@@ -615,7 +716,7 @@ def correspondence(ctx, rule):
     adt, roles, pn = find_stream(ctx)
     R = prepare_rows(ctx)
     seen = set()
-    for label, p, cs in stream_cases():
+    for label, p, cs in stream_cases(roles):
         outs = run_case(ctx, adt, roles, pn, p, cs)
         for o in outs:
             if not cons_zone(o).feasible():
@@ -658,8 +759,8 @@ def correspondence(ctx, rule):
             # the position must move on, otherwise the next poll emits the same piece again
             if not (isinstance(payload, tuple) and payload[0] == "payload"):
                 stt = read_pos(ctx, o, roles)
-                if stt == pack(H, const(p)):
-                    ctx.violation(rule, rule + "|no-progress|p=%d" % p, "after emitting %s the position is unchanged (%s): the next poll emits the same piece again" %
+                if stt == pre_pos(roles, p):
+                    ctx.violation(rule, rule + "|no-progress|p=%s" % p, "after emitting %s the position is unchanged (%s): the next poll emits the same piece again" %
                                   ("a part header" if "elem" in repr(payload)[:300] else "the trailer", short(stt, 30)), where=_last_where(o))
             src = fmt_term(payload)
             if isinstance(payload, tuple) and payload[0] == "call" and (payload[1].endswith("::into") or payload[1].endswith("::from")):
@@ -722,8 +823,22 @@ def constructor_inv(ctx, rule):
         s = ops.get(roles["state"])
         c = ops.get(roles["cur"])
         ok = s is not None and s.get("int") == 0     # (in the split representation the phase stored here is p=0 by definition)
-        outs = ctx.px(b["name"])
+        from .common import helper_inline
+        outs = ctx.px(b["name"], inline=helper_inline(ctx, own=(adt,)), key="helpers") if roles["rep"] == "enum" else ctx.px(b["name"])
         curv = None
+        if roles["rep"] == "enum":
+            # position 0: headers(0), or the trailer when the path knows that there is no part at all
+            ok = True
+            for o in outs:
+                if o.kind == "return" and is_agg(o.value):
+                    sv_ = agg_get(o.value, roles["state"])
+                    role = {n_: r_ for r_, n_ in roles["variants"].items()}.get(sv_[3]) if is_agg(sv_) else None
+                    rg_ = agg_get(o.value, roles["ranges"])
+                    if role == "hdr" and agg_get(sv_, "0") == const(0):
+                        continue
+                    if role == "trailer" and cons_zone(o, terms=(len_term(rg_),)).entails("Eq", len_term(rg_), const(0)):
+                        continue
+                    ok = False
         for o in outs:
             if o.kind == "return" and is_agg(o.value):
                 curv = agg_get(o.value, roles["cur"])
@@ -761,6 +876,16 @@ def stream_frame(ctx, rule):
             if not adv:
                 ctx.violation(rule, "%s|part-end-no-advance" % rule, "when the current part's stream ends the position stays at %s: the same part is installed and streamed again" % short(stt, 40),
                               where=_last_where(o))
+            else:
+                # ... and it advances to the start of the *next* part (or to the trailer when that was the last one): h' = h + 1
+                # (p' = 0, or 1 when the same turn went on to emit that part's header / the trailer)
+                nxt = mk_binop("Add", H, const(1))
+                TY.setdefault(nxt, (64, False))
+                succ = is_const(stt[2]) and (stt[1] == nxt or cons_zone(o, terms=(stt[1], nxt)).entails("Eq", stt[1], nxt)) and \
+                    (stt[2][1] == 0 or o.kind == "return")
+                if not succ:
+                    ctx.violation(rule, "%s|part-end-skips" % rule, "when part h's stream ends the position becomes %s, not the start of part h+1: a part (or its header) is skipped" % short(stt, 40),
+                                  where=_last_where(o))
             continue
         chunk = ("payload", ("payload", ("payload", pr, "Ready", "0"), "Some", "0"), "Ok", "0")
         from_cur = (kind == "Pending" and o.cons.variant_of(pr) == "Pending") or (kind == "Ok" and payload == chunk)
